@@ -26,14 +26,8 @@ type Spec_StrongestByProbabilityCriteriaOrderingResolver struct {
 type Spec_StrongestCriteriaOrderingResolver struct {
 }
 
-type Spec_StrongestCriteriaOrderingResolver struct {
-}
-
 type Spec_WeakestByProbabilityCriteriaOrderingResolver struct {
 	Generator utils.SeededValueGenerator
-}
-
-type Spec_WeakestCriteriaOrderingResolver struct {
 }
 
 type Spec_WeakestCriteriaOrderingResolver struct {
